@@ -220,18 +220,139 @@ theorem getCol_toCols {Val : Type} (names : List String) (recs : List (HaloRec V
   rw [lookup_names names (fun m => recs.map (·.attr m)) n hn]
   simp
 
+/-! ### the fill loop -/
+
+theorem getAt_of_getElem? {α : Type} (arr : List α) (i : Nat) (v : α) (h : arr[i]? = some v) :
+    getAt arr i = .ok v := by
+  have hi : i < arr.length := by
+    rcases Nat.lt_or_ge i arr.length with h' | h'
+    · exact h'
+    · rw [List.getElem?_eq_none h'] at h; cases h
+  rw [getAt_ok arr i hi]
+  rw [List.getElem?_eq_getElem hi] at h
+  cases h; rfl
+
+theorem idx_ok (len i : Nat) (h : i < len) : idx len (i : Int) = .ok i := by
+  unfold idx; rw [pyIndex_nonneg h]
+
+/-- the writes of one slice assignment in closed form: cell `ticker + j` gets `vals[j]` -/
+def placed {α : Type} (ticker : Nat) (vals : List α) : List (Nat × α) :=
+  (vals.zipIdx ticker).map (fun p => (p.2, p.1))
+
+theorem sliceWrites_ok {α : Type} (len ticker : Nat) (vals : List α) (h : ticker + vals.length ≤ len) :
+    sliceWrites len ticker vals.length vals = .ok (placed ticker vals) := by
+  unfold sliceWrites
+  have h1 : min ticker len = ticker := by omega
+  have h2 : min (ticker + vals.length) len = ticker + vals.length := by omega
+  simp only [h1, h2]
+  have h3 : vals.length = ticker + vals.length - ticker := by omega
+  rw [if_pos h3]
+  apply mapE_ok
+  intro p hp
+  obtain ⟨x, i⟩ := p
+  have hm := List.mem_zipIdx hp
+  rw [idx_ok len i (by omega)]
+
+theorem fillLoop_ok {α : Type} (total : Nat) (counts : List Nat) (parts : List (List α)) :
+    ∀ (k ticker : Nat) (ws : List (Nat × α)),
+      counts.drop k = parts.map List.length → ticker + (parts.map List.length).sum ≤ total →
+      fillLoop total counts id parts k ticker ws = .ok (ws ++ placed ticker parts.flatten) := by
+  induction parts with
+  | nil => intro k ticker ws _ _; simp [fillLoop, placed]
+  | cons vals rest ih =>
+    intro k ticker ws hc ht
+    have hk : counts[k]? = some vals.length := by
+      have := congrArg (fun l => l[0]?) hc
+      simpa [List.getElem?_drop] using this
+    have hc' : counts.drop (k + 1) = rest.map List.length := by
+      have := congrArg (fun l => l.drop 1) hc
+      simpa [List.drop_drop, Nat.add_comm] using this
+    simp only [List.map_cons, List.sum_cons] at ht
+    unfold fillLoop
+    rw [getAt_of_getElem? counts k _ hk]
+    simp only
+    rw [sliceWrites_ok total ticker vals (by omega)]
+    simp only [id]
+    rw [getAt_of_getElem? counts k _ hk]
+    simp only
+    rw [ih (k + 1) (ticker + vals.length) _ hc' (by omega)]
+    simp [placed, List.zipIdx_append, List.append_assoc]
+
+theorem fillArr_ok {α : Type} (parts : List (List α)) :
+    fillArr (parts.map List.length).sum (parts.map List.length) parts = .ok (placed 0 parts.flatten) := by
+  unfold fillArr
+  rw [fillLoop_ok _ _ parts 0 0 [] (by simp) (by omega)]
+  simp
+
+theorem placed_fst {α : Type} (t : Nat) (l : List α) : (placed t l).map (·.1) = List.range' t l.length := by
+  simp only [placed, List.map_map]
+  exact List.zipIdx_map_snd t l
+
+theorem placed_snd {α : Type} (t : Nat) (l : List α) : (placed t l).map (·.2) = l := by
+  simp only [placed, List.map_map]
+  exact List.zipIdx_map_fst t l
+
+theorem set_append_cons {β : Type} (xs : List β) (y z : β) (ys : List β) :
+    (xs ++ y :: ys).set xs.length z = xs ++ z :: ys := by
+  induction xs with
+  | nil => rfl
+  | cons x xs ih => simp [ih]
+
+theorem applyWrites_placed {α : Type} (l : List α) : ∀ (done : List α),
+    applyWrites (done.map some ++ List.replicate l.length none)
+      ((placed done.length l).map (fun w => (w.1, some w.2))) = (done ++ l).map some := by
+  induction l with
+  | nil => intro done; simp [placed, applyWrites]
+  | cons v vs ih =>
+    intro done
+    have h := ih (done ++ [v])
+    simp only [List.length_append, List.length_cons, List.length_nil, Nat.zero_add, List.map_append,
+      List.map_cons, List.map_nil, List.append_assoc, List.cons_append, List.nil_append] at h
+    simp only [placed, List.zipIdx_cons, List.map_cons, applyWrites, List.foldl_cons, List.length_cons,
+      List.replicate_succ]
+    have hs : (List.map some done ++ none :: List.replicate vs.length none).set done.length (some v)
+        = List.map some done ++ some v :: List.replicate vs.length none := by
+      simp
+    rw [hs]
+    simpa [placed, applyWrites] using h
+
+theorem readBack_some {α : Type} (l : List α) : readBack (l.map some) = .ok l := by
+  unfold readBack
+  have := mapE_map_ok (cellValue (α := α)) some id l (by intro x _; rfl)
+  simpa using this
+
+/-- one array after the fill loop is the concatenation of the slabs' values -/
+theorem fillColumn_ok {α : Type} (parts : List (List α)) :
+    fillColumn (parts.map List.length) parts = .ok parts.flatten := by
+  unfold fillColumn fillColumnWith
+  have hfa := fillArr_ok parts
+  unfold fillArr at hfa
+  simp only [hfa]
+  have hl : (parts.map List.length).sum = parts.flatten.length := by rw [List.length_flatten]
+  rw [hl]
+  have := applyWrites_placed parts.flatten []
+  simp only [List.map_nil, List.nil_append, List.length_nil] at this
+  unfold allocate
+  rw [this, readBack_some]
+
 theorem slabCol_toCols {Val : Type} (names : List String) (slabs : List (List (HaloRec Val))) (n : String)
     (hn : n ∈ names) :
     slabCol (slabs.map (toCols names)) n = .ok (n, (slabs.flatten).map (·.attr n)) := by
   unfold slabCol
   rw [mapE_map_ok (fun (s : HaloCols Val) => getCol s.cols n s.hid.length) (toCols names)
     (fun recs => recs.map (·.attr n)) slabs (by intro recs _; exact getCol_toCols names recs n hn)]
+  have hc : (slabs.map (toCols names)).map (·.hid.length) = (slabs.map (fun recs => recs.map (·.attr n))).map List.length := by
+    simp [toCols, List.map_map, Function.comp_def]
+  simp only [hc, fillColumn_ok]
   simp [List.map_flatten]
 
 /-- filling the arrays slab after slab = the arrays of the concatenated records -/
 theorem concatCols_toCols {Val : Type} (names : List String) (slabs : List (List (HaloRec Val))) :
     concatCols names (slabs.map (toCols names)) = .ok (toCols names slabs.flatten) := by
   unfold concatCols
+  have hc : (slabs.map (toCols names)).map (·.hid.length) = ((slabs.map (toCols names)).map (·.hid)).map List.length := by
+    simp [List.map_map, Function.comp_def]
+  simp only [hc, fillColumn_ok]
   rw [mapE_ok (slabCol (slabs.map (toCols names))) (fun n => (n, (slabs.flatten).map (·.attr n))) names
     (fun n hn => slabCol_toCols names slabs n hn)]
   simp [toCols, List.map_flatten, List.map_map, Function.comp_def]
@@ -247,5 +368,107 @@ theorem permuteCols_toCols {Val : Type} (permuted names : List String) (σ : Lis
   unfold permuteCol
   simp only [hall n hn, if_true]
   rw [gather_ok _ _ (by simpa using hσ), pick_map]
+
+/-! ### stability of the sort index (ids with duplicates) -/
+
+/-- order by id, ties by position in the file -/
+def lexLt (a b : Nat × Nat) : Prop := a.1 < b.1 ∨ (a.1 = b.1 ∧ a.2 < b.2)
+
+theorem insertPair_lex (p : Nat × Nat) (l : List (Nat × Nat)) (h : l.Pairwise lexLt)
+    (hp : ∀ x ∈ l, p.2 < x.2) : (insertPair p l).Pairwise lexLt := by
+  induction l with
+  | nil => simp [insertPair]
+  | cons q qs ih =>
+    have hq := List.pairwise_cons.mp h
+    unfold insertPair
+    split
+    · rename_i hle
+      refine List.pairwise_cons.mpr ⟨?_, h⟩
+      intro x hx
+      have hpx := hp x hx
+      rcases List.mem_cons.mp hx with hxq | hx'
+      · subst hxq; unfold lexLt; omega
+      · have := hq.1 x hx'; unfold lexLt at this ⊢; omega
+    · rename_i hnle
+      refine List.pairwise_cons.mpr ⟨?_, ih hq.2 (fun x hx => hp x (List.mem_cons_of_mem _ hx))⟩
+      intro x hx
+      have hx' := (insertPair_perm p qs).mem_iff.mp hx
+      rcases List.mem_cons.mp hx' with hxp | hx''
+      · subst hxp; unfold lexLt; omega
+      · exact hq.1 x hx''
+
+theorem sortPairs_lex (l : List (Nat × Nat)) (h : l.Pairwise (fun a b => a.2 < b.2)) :
+    (sortPairs l).Pairwise lexLt := by
+  induction l with
+  | nil => simp [sortPairs]
+  | cons p ps ih =>
+    have hp := List.pairwise_cons.mp h
+    show (insertPair p (sortPairs ps)).Pairwise lexLt
+    exact insertPair_lex p _ (ih hp.2) (fun x hx => hp.1 x ((sortPairs_perm ps).mem_iff.mp hx))
+
+theorem zipIdx_snd_lt {α : Type} (l : List α) : ∀ k, (l.zipIdx k).Pairwise (fun a b => a.2 < b.2) := by
+  induction l with
+  | nil => intro k; simp
+  | cons a as ih =>
+    intro k
+    rw [List.zipIdx_cons]
+    refine List.pairwise_cons.mpr ⟨?_, ih (k + 1)⟩
+    intro x hx
+    obtain ⟨v, i⟩ := x
+    have := List.mem_zipIdx hx
+    show k < i
+    omega
+
+theorem sortedPairs_lex (hid : List Nat) : (sortedPairs hid).Pairwise lexLt :=
+  sortPairs_lex _ (zipIdx_snd_lt hid 0)
+
+/-! ### source expressions evaluate row by row -/
+
+open AbacusVerif.Generated.StagingCols in
+/-- a source expression evaluated on one record of the dataset -/
+def evalRec {Val : Type} (ops : Ops Val) (r : HaloRec Val) : Src → Val
+  | .field f => r.attr f
+  | .asInt a => evalRec ops r a
+  | .div a b => ops.div (evalRec ops r a) (evalRec ops r b)
+  | .mulParam a p => ops.mulParam p (evalRec ops r a)
+  | .fieldOrZeros f => r.attr f
+
+open AbacusVerif.Generated.StagingCols in
+/-- the dataset fields an expression reads -/
+def srcFields : Src → List String
+  | .field f => [f]
+  | .asInt a => srcFields a
+  | .div a b => srcFields a ++ srcFields b
+  | .mulParam a _ => srcFields a
+  | .fieldOrZeros f => [f]
+
+theorem zipWith_map_map {α β γ δ : Type} (f : β → γ → δ) (g : α → β) (h : α → γ) (l : List α) :
+    List.zipWith f (l.map g) (l.map h) = l.map (fun x => f (g x) (h x)) := by
+  induction l with
+  | nil => rfl
+  | cons a as ih => simp [ih]
+
+open AbacusVerif.Generated.StagingCols in
+theorem evalSrc_toCols {Val : Type} (ops : Ops Val) (fields : List String) (recs : List (HaloRec Val)) (src : Src)
+    (hf : ∀ f ∈ srcFields src, f ∈ fields) :
+    evalSrc ops (toCols fields recs) src = .ok (recs.map (fun r => evalRec ops r src)) := by
+  induction src with
+  | field f =>
+    have := getCol_toCols fields recs f (hf f (by simp [srcFields]))
+    simpa [evalSrc, evalRec] using this
+  | asInt a ih =>
+    simp only [evalSrc, evalRec]
+    exact ih (by simpa [srcFields] using hf)
+  | div a b iha ihb =>
+    have ha := iha (fun f h => hf f (by simp [srcFields, h]))
+    have hb := ihb (fun f h => hf f (by simp [srcFields, h]))
+    simp only [evalSrc, evalRec, ha, hb, zipWith_map_map]
+  | mulParam a p ih =>
+    have ha := ih (by simpa [srcFields] using hf)
+    simp only [evalSrc, evalRec, ha, List.map_map, Function.comp_def]
+  | fieldOrZeros f =>
+    simp only [evalSrc, evalRec, toCols]
+    rw [lookup_names fields (fun m => recs.map (·.attr m)) f (hf f (by simp [srcFields]))]
+    simp
 
 end AbacusVerif.Staging
